@@ -18,13 +18,19 @@ let res_s show = function
   | Err _ -> "err"
   | OutOfFuel -> "outoffuel"
 
-let fid show asis got = "asis=" ^ (if split_ws (res_s show asis) = got then "same" else "diff")
+(* model fidelity: the hand transcription AND (where there is one) the body regenerated from the Rust source
+   (coq/gen/RatioBodies.v) must both predict the implementation's answer *)
+let fid ?gen show asis got =
+  let ok r = split_ws (res_s show r) = got in
+  match gen with
+  | None -> "asis=" ^ (if ok asis then "same" else "diff")
+  | Some g -> if ok asis && ok g then "asis=same" else if ok asis then "asis=diff cls=generated-body-differs" else "asis=diff"
 let fid_err asis got = match asis, got with
   | Err _, "err" :: _ -> "asis=same"
   | _ -> "asis=diff"
 
 (* RBig: the answer must be exactly the specification's canonical pair *)
-let judge_exact ?(extra = "") show spec asis got =
+let judge_exact ?(extra = "") ?gen show spec asis got =
   match spec, got with
   | Err _, "err" :: _ -> pass ~extra:(fid_err asis got ^ " " ^ extra) ()
   | Err _, _ -> fail "err"
@@ -33,11 +39,11 @@ let judge_exact ?(extra = "") show spec asis got =
     let cls = match got with
       | [ "ok"; n; d ] when (match spec with Ok _ -> true | _ -> false) && not (invb (z n, z d)) -> " cls=not-lowest-terms"
       | _ -> "" in
-    let v = expect ~extra:(fid show asis got ^ " " ^ extra) (res_s show spec) got in
+    let v = expect ~extra:(fid ?gen show asis got ^ " " ^ extra) (res_s show spec) got in
     if v.v = "fail" then { v with extra = v.extra ^ cls } else v
 
 (* Relaxed: positive denominator and the value of the specification *)
-let judge_value ?(extra = "") spec xasis got =
+let judge_value ?(extra = "") ?gen spec xasis got =
   match spec, got with
   | Ok s, [ "ok"; n; d ] ->
     let r = (z n, z d) in
@@ -45,13 +51,13 @@ let judge_value ?(extra = "") spec xasis got =
       (* informational only (the property demands the value): does the stored pair still share a factor two? *)
       let even v = Zar.equal (Zar.logand v Zar.one) Zar.zero in
       let c2 = if even (fst r) && even (snd r) then " cls=relaxed-common-two" else " cls=relaxed-no-common-two" in
-      pass ~extra:(fid rat_s xasis got ^ " " ^ extra ^ c2) ()
+      pass ~extra:(fid ?gen rat_s xasis got ^ " " ^ extra ^ c2) ()
     else fail ("value " ^ rat_s s)
   | Ok s, _ -> fail ("value " ^ rat_s s)
   | Err _, "err" :: _ -> pass ~extra:(fid_err xasis got) ()
   | Err _, _ -> fail "err"
   | OutOfFuel, _ -> skip "spec-out-of-fuel"
-  | Panic _, _ -> expect ~extra:(fid rat_s xasis got) (res_s rat_s spec) got
+  | Panic _, _ -> expect ~extra:(fid ?gen rat_s xasis got) (res_s rat_s spec) got
 
 let sign_of_tok s = if s = "-" then Negative else Positive
 
@@ -79,27 +85,32 @@ let judge_op relaxed name args got =
   (* operand as the harness builds it: T::from_parts(n, d) *)
   let opnd_spec i = from_parts_spec (a i) (a (i + 1)) in
   let opnd_asis i = if relaxed then xfrom_parts_asis (a i) (a (i + 1)) else from_parts_asis (a i) (a (i + 1)) in
-  let fin_rat ?(extra = "") spec asis =
-    if relaxed then judge_value ~extra spec asis got else judge_exact ~extra rat_s spec asis got in
+  let fin_rat ?(extra = "") ?gen spec asis =
+    if relaxed then judge_value ~extra ?gen spec asis got else judge_exact ~extra ?gen rat_s spec asis got in
+  (* operands through the regenerated constructors *)
+  let opnd_gen i = if relaxed then gen_Relaxed_from_parts (a i) (a (i + 1)) else gen_RBig_from_parts (a i) (a (i + 1)) in
   let q_rat_s (q, r) = hx q ^ " " ^ rat_s r in
   match name with
   | "add" | "sub" | "mul" | "div" | "rem" | "reme" ->
     let o = binop_of name in
     let spec = bind (opnd_spec 1) (fun x -> bind (opnd_spec 3) (fun y -> bin_spec o x y)) in
     let asis = bind (opnd_asis 1) (fun x -> bind (opnd_asis 3) (fun y -> (if relaxed then xbin_asis else bin_asis) o x y)) in
+    let gen = bind (opnd_gen 1) (fun x -> bind (opnd_gen 3) (fun y -> (if relaxed then gxbin else gbin) o x y)) in
     let extra = match opnd_spec 1, opnd_spec 3 with Ok x, Ok y -> add_path name x y | _ -> "" in
-    fin_rat ~extra spec asis
+    fin_rat ~extra ~gen spec asis
   | "dive" ->
     let spec = bind (opnd_spec 1) (fun x -> bind (opnd_spec 3) (fun y -> dive_spec x y)) in
     let asis = bind (opnd_asis 1) (fun x -> bind (opnd_asis 3) (fun y -> dive_asis x y)) in
-    judge_exact hx spec asis got
+    let gen = bind (opnd_gen 1) (fun x -> bind (opnd_gen 3) (fun y -> (if relaxed then gxdive else gdive) x y)) in
+    judge_exact ~gen hx spec asis got
   | "divreme" ->
     let spec = bind (opnd_spec 1) (fun x -> bind (opnd_spec 3) (fun y -> divreme_spec x y)) in
     let asis = bind (opnd_asis 1) (fun x -> bind (opnd_asis 3) (fun y -> (if relaxed then xdivreme_asis else divreme_asis) x y)) in
-    if not relaxed then judge_exact q_rat_s spec asis got
+    let gen = bind (opnd_gen 1) (fun x -> bind (opnd_gen 3) (fun y -> (if relaxed then gxdivreme else gdivreme) x y)) in
+    if not relaxed then judge_exact ~gen q_rat_s spec asis got
     else (match spec, got with
         | Ok (q, r), [ "ok"; gq; n; d ] ->
-          if hx q = gq && Zar.sign (z d) > 0 && veqb (z n, z d) r then pass ~extra:(fid q_rat_s asis got) ()
+          if hx q = gq && Zar.sign (z d) > 0 && veqb (z n, z d) r then pass ~extra:(fid ~gen q_rat_s asis got) ()
           else fail ("value " ^ q_rat_s (q, r))
         | _ -> expect (res_s q_rat_s spec) got)
   | "addi" | "subi" | "muli" | "divi" | "iadd" | "isub" | "imul" | "idiv" ->
@@ -108,13 +119,17 @@ let judge_op relaxed name args got =
     let i = a 4 in
     let spec = bind (opnd_spec 2) (fun x -> int_spec o x i) in
     let asis = bind (opnd_asis 2) (fun x -> (if relaxed then xint_asis else int_asis) u o x i) in
-    fin_rat spec asis
+    let left = (String.get name 0 = 'i') in      (* iadd / isub / imul / idiv: the integer is the left operand *)
+    let gen = bind (opnd_gen 2) (fun x -> (if relaxed then gxint else gint) left u o x i) in
+    fin_rat ~gen spec asis
   | "neg" | "inv" ->
     let o = unop_of name in
-    fin_rat (bind (opnd_spec 1) (un_spec o)) (bind (opnd_asis 1) (un_asis o))
+    let gen = bind (opnd_gen 1) (gun relaxed o) in
+    fin_rat ~gen (bind (opnd_spec 1) (un_spec o)) (bind (opnd_asis 1) (un_asis o))
   | "abs" | "sqr" | "cubic" | "fract" ->
     let o = unop_of name in
-    fin_rat (bind (opnd_spec 0) (un_spec o)) (bind (opnd_asis 0) (un_asis o))
+    let gen = bind (opnd_gen 0) (gun relaxed o) in
+    fin_rat ~gen (bind (opnd_spec 0) (un_spec o)) (bind (opnd_asis 0) (un_asis o))
   | "signum" ->
     (* answer: signum pair, sign token, is_zero flag *)
     (match opnd_spec 0 with
@@ -124,13 +139,48 @@ let judge_op relaxed name args got =
      | r -> expect (res_s rat_s r) got)
   | "mulsign" ->
     let sg = sign_of_tok (s 0) in
-    fin_rat (bind (opnd_spec 1) (fun x -> Ok (mulsign_spec sg x))) (bind (opnd_asis 1) (fun x -> Ok (mulsign_asis sg x)))
+    fin_rat ~gen:(bind (opnd_gen 1) (fun x -> Ok (gmulsign relaxed sg x)))
+      (bind (opnd_spec 1) (fun x -> Ok (mulsign_spec sg x))) (bind (opnd_asis 1) (fun x -> Ok (mulsign_asis sg x)))
   | "pow" ->
     let e = a 0 in
-    fin_rat (bind (opnd_spec 1) (fun x -> Ok (pow_spec x e))) (bind (opnd_asis 1) (fun x -> Ok (pow_asis x e)))
-  | "from_parts" -> fin_rat (opnd_spec 0) (opnd_asis 0)
+    fin_rat ~gen:(bind (opnd_gen 1) (fun x -> Ok (gpow x e)))
+      (bind (opnd_spec 1) (fun x -> Ok (pow_spec x e))) (bind (opnd_asis 1) (fun x -> Ok (pow_asis x e)))
+  | "from_parts" ->
+    (* Relaxed: additionally through reduce2 on 64-bit word lists (Reduce2WordsModel.v) *)
+    let gen = if relaxed then (let g = opnd_gen 0 in if g = xfrom_parts_words (Zar.of_int 64) (a 0) (a 1) then g else OutOfFuel)
+      else opnd_gen 0 in
+    fin_rat ~gen (opnd_spec 0) (opnd_asis 0)
+  | "preds" ->
+    (* is_zero is_one is_int(RBig only): spec on the value, model = regenerated predicates on the stored pair *)
+    (match opnd_spec 0, opnd_gen 0 with
+     | Ok (n, d), Ok (gn, gd) ->
+       let b v = if v then "1" else "0" in
+       let one = Zar.equal n Zar.one && Zar.equal d Zar.one in
+       let want = [ "ok"; b (Zar.sign n = 0); b one; (if relaxed then "-" else b (Zar.equal d Zar.one)) ] in
+       let model = if relaxed then [ "ok"; b (gen_Relaxed_is_zero gn gd); b (gen_Relaxed_is_one gn gd); "-" ]
+         else [ "ok"; b (gen_RBig_is_zero gn gd); b (gen_RBig_is_one gn gd); b (gen_RBig_is_int gn gd) ] in
+       expect ~extra:("asis=" ^ (if model = got then "same" else "diff")) (String.concat " " want) got
+     | r, _ -> expect (res_s rat_s r) got)
+  | "fromf32" | "fromf64" ->
+    (* TryFrom<f32/f64>: args <bits>; decode (thin, here) then the Coq model from the decoded pair on.
+       Both flavours must store the canonical pair (C04_from_float_exact_lowest_terms). *)
+    let bits = a 0 in
+    let (mb, eb, bias) = if name = "fromf32" then (23, 8, 127) else (52, 11, 1023) in
+    let p2 k = Zar.shift_left Zar.one k in
+    let frac = Zar.logand bits (Zar.pred (p2 mb)) in
+    let ex = Zar.to_int (Zar.logand (Zar.shift_right bits mb) (Zar.pred (p2 eb))) in
+    let neg = Zar.testbit bits (mb + eb) in
+    if ex = (1 lsl eb) - 1 then (match got with "err" :: _ -> pass ~extra:"asis=same cls=nonfinite" () | _ -> fail "err")
+    else begin
+      let m = if ex = 0 then frac else Zar.add frac (p2 mb) in
+      let e = if ex = 0 then 1 - bias - mb else ex - bias - mb in
+      let m = if neg then Zar.neg m else m in
+      judge_exact ~extra:(if e >= 0 then "cls=integer" else "cls=dyadic") rat_s
+        (Ok (from_float_spec m (Zar.of_int e))) (from_float_asis m (Zar.of_int e)) got
+    end
   | "from_parts_signed" ->
-    fin_rat (from_parts_signed_spec (a 0) (a 1))
+    fin_rat ~gen:((if relaxed then gen_Relaxed_from_parts_signed else gen_RBig_from_parts_signed) (a 0) (a 1))
+      (from_parts_signed_spec (a 0) (a 1))
       ((if relaxed then xfrom_parts_signed_asis else from_parts_signed_asis) (a 0) (a 1))
   | "from_parts_const" ->
     let sg = sign_of_tok (s 0) in
@@ -140,17 +190,19 @@ let judge_op relaxed name args got =
     (match opnd_spec 0, opnd_asis 0 with
      | Ok x, Ok x' ->
        let (t, f) = split_spec x in
-       if not relaxed then judge_exact q_rat_s (Ok (t, f)) (Ok (split_asis x')) got
+       let gen = bind (opnd_gen 0) (fun y -> Ok (gsplit y)) in
+       if not relaxed then judge_exact ~gen q_rat_s (Ok (t, f)) (Ok (split_asis x')) got
        else (match got with
            | [ "ok"; gt; n; d ] when hx t = gt && Zar.sign (z d) > 0 && veqb (z n, z d) f ->
-             pass ~extra:(fid q_rat_s (Ok (split_asis x')) got) ()
+             pass ~extra:(fid ~gen q_rat_s (Ok (split_asis x')) got) ()
            | _ -> fail ("value " ^ q_rat_s (t, f)))
      | r, _ -> expect (res_s rat_s r) got)
   | "trunc" | "floor" | "ceil" | "round" ->
-    let fs, fa = (match name with
-        | "trunc" -> trunc_spec, trunc_asis | "floor" -> floor_spec, floor_asis
-        | "ceil" -> ceil_spec, ceil_asis | _ -> round_spec, round_asis) in
-    judge_exact hx (bind (opnd_spec 0) (fun x -> Ok (fs x))) (bind (opnd_asis 0) (fun x -> Ok (fa x))) got
+    let fs, fa, fg = (match name with
+        | "trunc" -> trunc_spec, trunc_asis, gtrunc | "floor" -> floor_spec, floor_asis, gfloor
+        | "ceil" -> ceil_spec, ceil_asis, gceil | _ -> round_spec, round_asis, ground) in
+    judge_exact ~gen:(bind (opnd_gen 0) (fun x -> Ok (fg x))) hx
+      (bind (opnd_spec 0) (fun x -> Ok (fs x))) (bind (opnd_asis 0) (fun x -> Ok (fa x))) got
   (* parsers: args <string> <n> <d> (the integers the two parts of the string denote; d = 1 without '/') *)
   | "parse" -> fin_rat (parse_spec (a 1) (a 2)) ((if relaxed then xparse_asis else parse_asis) (a 1) (a 2))
   | "parse_radix" -> fin_rat (parse_spec (a 2) (a 3)) ((if relaxed then xparse_asis else parse_asis) (a 2) (a 3))
@@ -194,6 +246,8 @@ let judge_hist args got =
     let ps = ref (List.map (fun (n, d) -> unok (from_parts_spec n d)) init) in
     let pa = ref (List.map (fun (n, d) -> unok (from_parts_asis n d)) init) in
     let px = ref (List.map (fun (n, d) -> unok (xfrom_parts_asis n d)) init) in
+    let pg = ref (List.map (fun (n, d) -> unok (gen_RBig_from_parts n d)) init) in
+    let pgx = ref (List.map (fun (n, d) -> unok (gen_Relaxed_from_parts n d)) init) in
     match got with
     | "ok" :: toks ->
       let rec go t steps toks same =
@@ -214,10 +268,13 @@ let judge_hist args got =
                 | _ -> [ x1; x2 ] = want) in
             if not xok then fail (Printf.sprintf "step%d:%s:relaxed-value:%s" t op (String.concat "_" want))
             else begin
-              let same = same && tok_of asis = [ r1; r2 ] && tok_of xasis = [ x1; x2 ] in
+              let same = same && tok_of asis = [ r1; r2 ] && tok_of xasis = [ x1; x2 ]
+                         && tok_of (heval_gen !pg h) = [ r1; r2 ] && tok_of (heval_xgen !pgx h) = [ x1; x2 ] in
               ps := hstep heval_spec !ps h;
               pa := hstep heval_asis !pa h;
               px := hstep heval_xasis !px h;
+              pg := hstep heval_gen !pg h;
+              pgx := hstep heval_xgen !pgx h;
               go (t + 1) steps' toks' same
             end
           end
